@@ -276,6 +276,7 @@ impl Session {
                 match guarded(|| self.xot.remove_insignificant_whitespace(a)) { None => "panic".into(), Some(()) => "ok".into() }
             }
             "dump" => self.dump(),
+            "inv" => if self.validate().is_none() { "1".into() } else { "0".into() },
             "removed" => self.removed(),
             _ => panic!("unknown request {}", req),
         };
@@ -552,6 +553,7 @@ pub fn one_history(rng: &mut Rng, sink: &mut Sink, n_ops: usize, allow_cons_off:
         if resp.starts_with("err:") && after != before {
             sink.fail("C06", &format!("C06:{}-err-not-atomic", op), &format!("{} returned {} but the forest changed", req, resp), &s.history);
         }
+        s.exec(sink, "inv");
         if let Some(why) = s.validate() {
             sink.fail("C04", &format!("C04:{}:{}", op, why), &format!("after {}: {}", req, why), &s.history);
             return;
